@@ -57,5 +57,27 @@ def check_single(prog, ctx):
     return viol
 
 
+def sizes(tier):
+    from ..e1 import wide
+    return wide.specs(["fan-tasks", "list-items", "fan-one-fails"], tier == "quick")
+
+
+def check_sizes(spec, ctx):
+    from ..e1 import wide
+    prog = wide.expand(spec)
+    env = engine.run_program(prog, check_c04=True)
+    viol = oracles.clauses(env, "C04.")
+    s = sim.Sim(prog)
+    s.run()
+    real = [sorted(repr(a) for a in f[2]) for f in env.flushes]
+    if len(real) != s.rounds:
+        viol.append(("C04.count", "%d flushes; the longest chain of sequentially dependent requests is %d" % (len(real), s.rounds)))
+    elif real != s.flushed:
+        viol.append(("C04.contents", "flush sizes %r; all requests issuable before each flush: %r" % ([len(x) for x in real], [len(x) for x in s.flushed])))
+    ctx.label("wide:" + spec["shape"])
+    ctx.nontrivial(spec)
+    return [(c, "%r: %s" % (spec, m[:600])) for c, m in viol]
+
 SUBS = [Sub("invariant-multi-kind", check_multi, strategy=strat_multi, reduce=reduce.candidates, examples={"quick": 3000, "thorough": 200000}),
-        Sub("single-kind-vs-simulator", check_single, strategy=strat_single, reduce=reduce.candidates, examples={"quick": 3000, "thorough": 200000})]
+        Sub("single-kind-vs-simulator", check_single, strategy=strat_single, reduce=reduce.candidates, examples={"quick": 3000, "thorough": 200000}),
+        Sub("sizes", check_sizes, enumerate=sizes)]
